@@ -68,6 +68,13 @@ def blocks(tier, seed):
             for pz in (False, True):
                 for pre in itertools.product((0, 1), repeat=3):
                     out.append({"grid": {"kind": "cyl", "shape": list(shape), "R": 2.0, "z": [0.0, 0.5 * shape[1]], "periodic_z": pz}, "prefix": list(pre), "via_field": False})
+    # on-axis bodies of revolution on larger cylindrical grids: every layer z holds the cells r < w_z, w over a width alphabet
+    # (all profiles enumerated: discs with tails, stacks, gaps = several components, winding cores)
+    prof = [((8, 6), [0, 1, 2, 8]), ((8, 8), [0, 1, 8])] + ([((8, 8), [0, 1, 3, 8]), ((12, 6), [0, 1, 5, 12]), ((8, 10), [0, 1, 8])] if tier == "thorough" else [])
+    for shape, alph in prof:
+        for pz in (False, True):
+            for w0 in alph:
+                out.append({"grid": {"kind": "cyl", "shape": list(shape), "R": 0.5 * shape[0], "z": [-1.5, -1.5 + 0.75 * shape[1]], "periodic_z": pz}, "profile": alph, "prefix": [w0], "via_field": False})
     # catalogue of larger structured images (complement; enumerated completely, but not an exhaustive image space)
     for mask in itertools.product((False, True), repeat=2):
         out.append({"grid": cart((12, 12), mask), "catalogue": seed % 4, "prefix": [], "via_field": True})
@@ -103,6 +110,14 @@ def cases(block):
             yield {"grid": g, "bits": "".join("1" if b else "0" for b in img.ravel()), "via_field": True, "catalogue": True}
         return
     shape = g["shape"]
+    if "profile" in block:
+        for rest in itertools.product(block["profile"], repeat=shape[1] - 1):
+            widths = list(block["prefix"]) + list(rest)
+            img = np.zeros(shape, bool)
+            for z, w in enumerate(widths):
+                img[:w, z] = True
+            yield {"grid": g, "bits": "".join("1" if b else "0" for b in img.ravel()), "via_field": False, "profile": widths}
+        return
     n = int(np.prod(shape))
     pre = block["prefix"]
     for rest in itertools.product((0, 1), repeat=n - len(pre)):
@@ -154,6 +169,8 @@ def run_case(case, ctx):
         ctx.check("C02.no-raise", False, {"exc": repr(e)}, tags)
         return
     ctx.check("C02.no-raise", True)
+    if case.get("profile") is not None:
+        ctx.count("cyl-profile-images")
     comps = geom.components(img, periodic)
     cellvol = geom.cell_volumes(g)
     if cyl:
@@ -211,6 +228,15 @@ def run_case(case, ctx):
         tags = dict(tags, on_axis_component_longer_than_box=span)
         if span:
             ctx.count("cyl-component-longer-than-box")
+            # the recorded finding is specific: the library then analyses the image WITHOUT periodicity.  Only an outcome that
+            # equals that non-periodic analysis (every on-axis component of the unwrapped box, count centroid, no de-duplication)
+            # is attributed to the known finding; anything else is reported as a new violation.
+            npc = [c for c in geom.components(img, [False, False]) if any(cell[0] == 0 for cell in c["cells"])]
+            dz = (g["z"][1] - g["z"][0]) / shape[1]
+            want = sorted((round(float(sum(cellvol[cell] for cell in c["cells"])), 9), round(g["z"][0] + (np.mean([cell[1] for cell in c["cells"]]) + 0.5) * dz, 9)) for c in npc)
+            got = sorted((round(float(d.volume), 9), round(float(d.position[2]), 9)) for d in em)
+            same = len(want) == len(got) and all(abs(a[0] - b[0]) <= 1e-8 * max(1.0, abs(a[0])) and abs(a[1] - b[1]) <= 1e-8 for a, b in zip(want, got))
+            tags = dict(tags, equals_nonperiodic_analysis=bool(same))
 
     def posmatch(d, e):
         if e["winding"]:
@@ -332,4 +358,4 @@ def run_case(case, ctx):
 
 def expected_positive(tier):
     return ["C02.bijection", "C02.disjoint", "C02.omitted", "C02.cyl-empty", "C02.inbox", "C02.entry-point", "winding-components",
-            "components-crossing-a-periodic-boundary", "corner-crossing-components", "omitted-components", "cyl-off-axis-only", "multi-component-images"]
+            "components-crossing-a-periodic-boundary", "corner-crossing-components", "omitted-components", "cyl-off-axis-only", "multi-component-images", "cyl-profile-images"]
